@@ -78,13 +78,19 @@ class ProtocolHandler:
                 return None, new_session_id
             return response, new_session_id
         except Exception as e:
-            logging.error(f"Handler error for {method}: {e}")
+            # The exception's own text may be unavailable (a __str__ that raises):
+            # reporting the failure must not fail itself
+            try:
+                reason = str(e)
+            except Exception:
+                reason = type(e).__name__
+            logging.error(f"Handler error for {method}: {reason}")
             if is_notification:
                 return None, None
             # Get ID if available (not on notifications)
             msg_id = getattr(message, "id", None)
             return self.create_error_response(
-                msg_id, -32603, f"Internal error: {str(e)}"
+                msg_id, -32603, f"Internal error: {reason}"
             ), None
 
     async def _handle_initialize(
